@@ -16,6 +16,21 @@ def rnd(r, n):
     return bytes(r.getrandbits(8) for _ in range(n))
 
 
+def key_to_arg(kind, pk):
+    """the -k argument for a pinned key in one of the spellings the client documents / accepts:
+    lower-case hex, UPPER-case hex, mixed-case hex, base64"""
+    if kind in (None, "none"):
+        return None
+    if kind == "hex":
+        return pk.hex()
+    if kind == "hexU":
+        return pk.hex().upper()
+    if kind == "hexM":
+        h = pk.hex()
+        return "".join(ch.upper() if i % 3 == 0 else ch for i, ch in enumerate(h))
+    return base64.b64encode(pk).decode()
+
+
 def run_client(ver, key_arg, make_reply, timeout=10):
     """one client process against a one-shot responder. make_reply(request_bytes) -> datagram | None.
     returns dict(rc, stdout, stderr, request)"""
@@ -140,7 +155,7 @@ def multi_runs(ctx, pid):
 
     def work(i):
         c = plans[i]
-        ka = None if c["key"] == "none" else (LT_PK.hex() if c["key"] == "hex" else base64.b64encode(LT_PK).decode())
+        ka = key_to_arg(c["key"], LT_PK)
         results[i] = run_client_multi(c["ver"], ka, c["n"], c["mk"])
     with ThreadPoolExecutor(max_workers=8) as ex:
         list(ex.map(work, range(len(plans))))
@@ -417,6 +432,17 @@ def forgeries(r, ver, honest, request, nonce, earlier):
         gs["SIG"] = ed25519.sign(OK1, refserver.CTX_DELE[ver] + gs["SREP"])
         return refserver.rebuild(ver, gs)
     out.append(("SREP signed under the delegation context", srep_dele_ctx))
+    # validly signed by the delegated key, but the signed ROOT is only a PREFIX of the root the
+    # request's path recomputes (half of it / empty): the proof no longer binds the request
+    def root_prefix(keep):
+        gs = refserver.parts(ver, honest)
+        gs["_srep"]["ROOT"] = gs["_srep"]["ROOT"][:keep]
+        order = ["SIG", "VER", "SRV", "NONC", "DELE", "PATH", "RADI", "PUBK", "MIDP", "SREP", "VERS", "MINT", "ROOT", "CERT", "MAXT", "INDX"]
+        srep_bytes = rt.encode([(t, gs["_srep"][t]) for t in order if t in gs["_srep"]])
+        gs["SIG"] = ed25519.sign(OK1, refserver.CTX_SREP + srep_bytes)
+        return refserver.rebuild(ver, gs)
+    out.append(("signed: ROOT truncated to half its length", lambda: root_prefix(refserver.width(ver) // 2)))
+    out.append(("signed: ROOT empty", lambda: root_prefix(0)))
     # replay of an earlier genuine response (for another request)
     for e in earlier[-2:]:
         out.append(("replay of an earlier genuine response", lambda e=e: e))
@@ -436,11 +462,7 @@ def run_cases(ctx, pid, plan):
 
     def work(i):
         c = plan[i]
-        key_arg = None
-        if c["key"] == "hex":
-            key_arg = c["pk"].hex()
-        elif c["key"] == "b64":
-            key_arg = base64.b64encode(c["pk"]).decode()
+        key_arg = key_to_arg(c["key"], c["pk"])
         holder = {}
 
         def mk(req):
@@ -544,7 +566,7 @@ def run_c01(ctx):
         nforg = len(forgeries(r, ver, honest0, dummy_rq, nonce_of(ver, dummy_rq), earlier))
         for rep_i in range(reps):
             for k in range(nforg + 1):
-                key = "hex" if (k + rep_i) % 3 else "b64"
+                key = ("b64", "hex", "hexU")[(k + rep_i) % 3]
                 def maker(req, ver=ver, k=k, unit=unit, earlier=earlier):
                     nonce = nonce_of(ver, req)
                     co = rt.mk_classic(rnd(r, 64)) if ver == "Google" else rt.mk_ietf(rnd(r, 32), 1024)
@@ -589,7 +611,7 @@ def run_c03(ctx):
     for ver in ("Google", "RfcDraft13"):
         for si, (n, i) in enumerate(shapes):
             for mi, secs in enumerate(mids if (ctx.thorough or si % 3 == 0) else [mids[(si + 1) % len(mids)], mids[(si * 3) % len(mids)]]):
-                key = ("none", "hex", "b64")[(si + mi) % 3]
+                key = ("none", "hex", "b64", "hexU", "hexM")[(si + mi) % 5]
                 frac = [0, 999999, 123456][(si + mi) % 3] if ver == "Google" else 0
                 midp = secs * 10**6 + frac if ver == "Google" else secs
                 want = ("OK", key != "none", secs, frac * 1000, 5000000 if ver == "Google" else 5, i)
@@ -687,7 +709,7 @@ def real_server_runs_bs(ctx, batch_size):
     try:
         time.sleep(0.6)
         for ver in ("0", "13"):
-            for key in (None, LT_PK.hex(), base64.b64encode(LT_PK).decode()):
+            for key in (None, LT_PK.hex(), LT_PK.hex().upper(), base64.b64encode(LT_PK).decode()):
                 for n in (1, 9, 40):
                     args = [vlib.CLIENT_BIN, "127.0.0.1", str(port), "-p", ver, "-z", "-v", "-f", "%s %f", "-n", str(n)]
                     if key:
